@@ -147,6 +147,8 @@ namespace hs
                 want = round16(r.range(48, 2048));
             else if (sut == "static")
                 want = 0;
+            else if (sut == "temp")
+                want = r.range(96, 2048);
             else
                 want = 256;
 
@@ -244,7 +246,7 @@ namespace hs
             case 8:
                 return pick(r, ITERS);
             default:
-                return r.chance(1, 2) ? pick(r, LOWS) : "static";
+                return r.chance(1, 3) ? std::string("temp") : r.chance(1, 2) ? pick(r, LOWS) : std::string("static");
             }
         };
         if (profile == "C04")
@@ -252,7 +254,7 @@ namespace hs
         else if (profile == "C05")
             sut = r.chance(1, 2) ? pick(r, ARENAS) : any_user();
         else if (profile == "C06")
-            sut = pick(r, STACKS);
+            sut = r.chance(1, 8) ? std::string("temp") : pick(r, STACKS);
         else if (profile == "C07")
             sut = pick(r, ITERS);
         else if (profile == "C08")
@@ -308,7 +310,8 @@ namespace hs
             sut = any_user();
         p.set("sut", sut);
 
-        bool is_pool = has(sut, "pool."), is_coll = has(sut, "coll."), is_stack = has(sut, "stack."),
+        bool is_temp = sut == "temp";
+        bool is_pool = has(sut, "pool."), is_coll = has(sut, "coll."), is_stack = has(sut, "stack.") || is_temp,
              is_iter = has(sut, "iter"), is_arena = has(sut, "arena."), is_ll = has(sut, "ll."),
              is_static = sut == "static";
         bool arrays    = !has(sut, ".small.") && !is_arena;
